@@ -372,7 +372,13 @@ func (cfg *config) parseAudience(line string) error {
 			}
 			a.auditor.activeCond = exp
 		}
-		a.auditor.expectExpr = tg.auditor.expectExpr
+		// Check the expression again on behalf of this member, so that
+		// it also watches the variables the expression depends on.
+		exp, err := a.checkExpr(cfg, tg.auditor.expectExpr.src)
+		if err != nil {
+			return err
+		}
+		a.auditor.expectExpr = exp
 		a.auditor.expectFsm = tg.auditor.expectFsm
 	} else if p := pw(activeRe); p.m(line) {
 		aWhen := p.get("expr")
